@@ -143,8 +143,16 @@ def dict_seq(I: Interp, d: SV, kind) -> Seq:
     # well-formedness of the key sequence (assumed; established by dict_set for literals)
     a, b = z3.Ints(f"a!dk{st.n_fresh} b!dk{st.n_fresh}")
     st.n_fresh += 1
-    st.assume(z3.ForAll([a], z3.Implies(z3.And(a >= 0, a < n), z3.Select(has, z3.Select(keys, a)))))
-    st.assume(z3.ForAll([a, b], z3.Implies(z3.And(a >= 0, a < b, b < n), z3.Select(keys, a) != z3.Select(keys, b))))
+    K = st.cfg.get("ground")
+    if K:
+        st.assume(n <= K)
+        for x in range(K):
+            st.assume(z3.Implies(x < n, z3.Select(has, z3.Select(keys, x))))
+            for y in range(x + 1, K):
+                st.assume(z3.Implies(y < n, z3.Select(keys, x) != z3.Select(keys, y)))
+    else:
+        st.assume(z3.ForAll([a], z3.Implies(z3.And(a >= 0, a < n), z3.Select(has, z3.Select(keys, a)))))
+        st.assume(z3.ForAll([a, b], z3.Implies(z3.And(a >= 0, a < b, b < n), z3.Select(keys, a) != z3.Select(keys, b))))
 
     def item(i):
         k = SV(smt.simp(z3.Select(keys, i)), kty)
@@ -212,6 +220,25 @@ def exec_for(I: Interp, node: ast.For, fr: Frame):
         broke = False
         for v in seq.concrete:
             I.assign(node.target, v, fr)
+            try:
+                I.exec_block(node.body, fr)
+            except ContinueEx:
+                continue
+            except BreakEx:
+                broke = True
+                break
+        if not broke:
+            I.exec_block(node.orelse, fr)
+        return
+    K = st.cfg.get("unroll")
+    if K:
+        # refutation mode: bounded unrolling, only states where the iterable has at most K elements
+        st.assume(seq.n <= K)
+        broke = False
+        for j in range(K):
+            if not st.branch(z3.IntVal(j) < seq.n):
+                break
+            I.assign(node.target, seq.item(z3.IntVal(j)), fr)
             try:
                 I.exec_block(node.body, fr)
             except ContinueEx:
